@@ -165,8 +165,8 @@ From Coq Require Import String.
 From Toasty Require Import Model.SrcPrelude Model.CliScript Generated.CliTransformSrc Proofs.CliTransformP.
 
 Theorem src_transform_command_is_model :
-  forall (is_none : sval unit -> bool) (eq_lit : sval unit -> string -> bool),
-  run_tree is_none eq_lit src_cli_transform_impl = transform_impl_model is_none eq_lit.
+  forall (is_none : sval unit -> bool) (eq_lit : sval unit -> string -> bool) (is_true : sval unit -> bool),
+  run_tree is_none eq_lit is_true src_cli_transform_impl = transform_impl_model is_none eq_lit.
 Proof. exact src_transform_impl_eq. Qed.
 Print Assumptions src_transform_command_is_model.
 
